@@ -75,6 +75,11 @@ class Object(metaclass=ObjectMeta):
         """
         if value is self:
             return
+        if isinstance(value, NotPassed) and "_dict" in vars(self):
+            # Already built from the default by `__new__`, which returned a
+            # finished instance: initialising it again would repeat the work
+            # of every nested default (doubling it at each level).
+            return
         # A property may itself be called "default": read the model's own.
         if isinstance(value, NotPassed) and not isinstance(
             type(self).default, NotPassed
